@@ -90,7 +90,31 @@ func main() {
 				}
 			}
 		}
+		garble := -1
+		if dir != "" {
+			if _, err := os.Stat(filepath.Join(dir, "garblemode")); err == nil && len(chunks) > 0 {
+				// a converter that breaks the protocol once per (stream, payload): one
+				// malformed chunk line, then the rest of a normal answer
+				marker := filepath.Join(dir, fmt.Sprintf("garble-%d-%s", m.StreamID, digest))
+				if _, err := os.Stat(marker); err != nil {
+					os.WriteFile(marker, nil, 0o644)
+					garble = int(h.Sum(nil)[7]) % 4
+				}
+			}
+		}
 		for i, c := range chunks {
+			if i == 0 && garble >= 0 {
+				switch garble {
+				case 0:
+					out.WriteString("{\"Direction\":\"" + c.Direction + "\",\"Content\":\"QQ==\",\"Time\":\"half past nine\"}\n")
+				case 1:
+					out.WriteString("{\"Direction\":\"sideways\",\"Content\":\"QQ==\",\"Time\":\"" + c.Time + "\"}\n")
+				case 2:
+					out.WriteString("{\"Direction\":\"" + c.Direction + "\",\"Content\":\"***\",\"Time\":\"" + c.Time + "\"}\n")
+				default:
+					out.WriteString("this is not json\n")
+				}
+			}
 			raw, _ := base64.StdEncoding.DecodeString(c.Content)
 			conv := bytes.ToUpper(raw)
 			if i == 0 {
